@@ -70,7 +70,8 @@ def es_worker(args):
             out['status'] = 'trace_failed'; out['error'] = info
             return out
         out['trace'] = info
-        dag = sweep.Dag(dagp, eps_to_zero=opts.get('eps0', False))
+        dag = sweep.Dag(dagp, eps_to_zero=opts.get('eps0', False), merge_ulps=opts.get('merge_ulps', 0))
+        out['trace']['merged_constants'] = dag.merged_constants
         out['trace']['recall_sites'] = len(set(dag.recalls))
         out['trace']['nonfinite_consts'] = len(dag.nonfinite_consts)
         fixed = {int(k): v for k, v in opts.get('fixed', {}).items()}
@@ -176,8 +177,8 @@ def decide(outcome, prop, results, scope=None, tol=1e-9):
             if scope is not None and oid in scope.get('outside_reach', {}):
                 jr['relations'][r['name']] = 'outside_reach'
                 # still report a natively reproduced deviation: it does not depend on the prover
-                if not r['proved'] and r.get('native_worst') and r['native_worst']['dev'] > tol and not r['numeric_agree']:
-                    pass
+                if not r['proved'] and r.get('native_worst') and r['native_worst']['dev'] > tol:
+                    pass   # reported below as a violation: reproduced natively, independent of the prover
                 else:
                     continue
             obligations += 1
@@ -246,3 +247,163 @@ def systems(tier, seed):
     S.append(('saftvrqmie_fun', {'kind': 'saftvrqmie_fun', 'src': src(('saftvrqmie/hammer2023.json', ['hydrogen', 'neon']))}, 2, 50.0, 1000.0))
     S.append(('fmt_fun', {'kind': 'fmt_fun', 'syn': [[3.4], [3.9]]}, 2, 300.0, 1000.0))
     return S
+
+
+# ---------------------------------------------------------------- job catalogues per property
+
+P = 'pcsaft/'
+
+
+def ternaries(tier, seed):
+    """(name, spec, witness T, V) three-component systems built from shipped/synthetic records"""
+    S = [
+        ('pcsaft3', {'kind': 'pcsaft', 'src': src((P + 'gross2001.json', ['propane', 'butane']), (P + 'gross2002.json', ['methanol'])), 'bin': {'k_ij': 0.02}}, 300.0, 1000.0),
+        ('pr3', {'kind': 'pr', 'syn': [[369.8, 41.9e5, 0.15, 44.0], [425.2, 37.9e5, 0.2, 58.0], [190.6, 46.0e5, 0.011, 16.0]], 'bin': 0.02}, 300.0, 1000.0),
+        ('pets3', {'kind': 'pets', 'syn': [[3.4, 120.0, 39.9], [3.6, 165.0, 83.8], [3.0, 90.0, 20.0]], 'bin': {'k_ij': 0.01}}, 150.0, 1000.0),
+        ('gcpcsaft3', {'kind': 'gcpcsaft', 'src': src((P + 'gc_substances.json', ['propane', 'butane', 'pentane'])), 'segments': P + 'sauer2014_hetero.json'}, 300.0, 1000.0),
+    ]
+    if tier == 'thorough':
+        S += [
+            ('pcsaft3_polar', {'kind': 'pcsaft', 'src': src((P + 'gross2006.json', ['acetone']), (P + 'gross2005_fit.json', ['carbon dioxide']), (P + 'gross2001.json', ['propane']))}, 300.0, 1000.0),
+            ('uv3_wca', {'kind': 'uv', 'pert': 'wca', 'syn': [[12.0, 6.0, 3.4, 120.0], [14.0, 6.0, 3.7, 160.0], [11.0, 6.0, 3.1, 100.0]]}, 150.0, 1000.0),
+            ('uv3_bh', {'kind': 'uv', 'pert': 'bh', 'syn': [[12.0, 6.0, 3.4, 120.0], [14.0, 6.0, 3.7, 160.0], [11.0, 6.0, 3.1, 100.0]]}, 150.0, 1000.0),
+            ('saftvrmie3', {'kind': 'saftvrmie', 'src': src(('saftvrmie/lafitte2013.json', ['methane', 'ethane', 'propane']))}, 200.0, 1000.0),
+            ('epcsaft3', {'kind': 'epcsaft', 'src': src((P + 'gross2001.json', ['propane', 'butane', 'pentane']))}, 300.0, 1000.0),
+            ('pcsaft_fun3', {'kind': 'pcsaft_fun', 'fmt': 'WhiteBear', 'src': src((P + 'gross2001.json', ['propane', 'butane', 'pentane']))}, 300.0, 1000.0),
+        ]
+    return S
+
+
+def jobs_C09(tier, seed):
+    jobs = []
+    perms = [[2, 0, 1]] if tier == 'quick' else [[2, 0, 1], [1, 2, 0], [1, 0, 2], [0, 2, 1], [2, 1, 0]]
+    subsets = [[0, 1], [2], [1, 2]] if tier == 'quick' else [[0, 1], [0, 2], [1, 2], [0], [1], [2], [2, 0], [1, 0]]
+    for name, spec, T, V in ternaries(tier, seed):
+        x = state(3, T, V, seed)
+        for p in perms:
+            m2 = dict(spec); m2['idx'] = p
+            job = {'job': 'perm', 'model': spec, 'model2': m2, 'x': x}
+            if tier == 'thorough' or name in ('pr3', 'pets3'):
+                job['dual'] = 'first'
+            jobs.append(('perm/%s/%s' % (name, ''.join(map(str, p))), job, {'scale': False, 'merge_ulps': 8, 'budget_s': 600}))
+        for keep in subsets:
+            m2 = dict(spec); m2['subset'] = keep
+            jobs.append(('pad_subset/%s/%s' % (name, ''.join(map(str, keep))), {'job': 'pad', 'model': spec, 'model2': m2, 'keep': sorted(keep) if False else keep, 'x': x},
+                         {'scale': False, 'merge_ulps': 8, 'budget_s': 600}))
+            m3 = dict(spec); m3['idx'] = keep
+            jobs.append(('subset_vs_direct/%s/%s' % (name, ''.join(map(str, keep))), {'job': 'pair', 'match': 'contrib', 'model': m2, 'model2': m3, 'x': x[:3] + [x[3 + k] for k in keep]},
+                         {'scale': False, 'merge_ulps': 8, 'budget_s': 600}))
+    # splitting: binary systems, each component entered twice in turn
+    B = [('pcsaft2', {'kind': 'pcsaft', 'src': src((P + 'gross2001.json', ['propane']), (P + 'gross2002.json', ['methanol'])), 'bin': {'k_ij': 0.02}}, 300.0, 1000.0, [0]),
+         ('pr2', {'kind': 'pr', 'syn': [[369.8, 41.9e5, 0.15, 44.0], [425.2, 37.9e5, 0.2, 58.0]], 'bin': 0.02}, 300.0, 1000.0, [0, 1]),
+         ('pets2', {'kind': 'pets', 'syn': [[3.4, 120.0, 39.9], [3.6, 165.0, 83.8]], 'bin': {'k_ij': 0.01}}, 150.0, 1000.0, [0, 1])]
+    if tier == 'thorough':
+        B += [('pcsaft2_polar', {'kind': 'pcsaft', 'src': src((P + 'gross2006.json', ['acetone']), (P + 'gross2005_fit.json', ['carbon dioxide']))}, 300.0, 1000.0, [0, 1]),
+              ('gcpcsaft2', {'kind': 'gcpcsaft', 'src': src((P + 'gc_substances.json', ['propane', 'butane'])), 'segments': P + 'sauer2014_hetero.json'}, 300.0, 1000.0, [0, 1]),
+              ('uv2_wca', {'kind': 'uv', 'pert': 'wca', 'syn': [[12.0, 6.0, 3.4, 120.0], [14.0, 6.0, 3.7, 160.0]]}, 150.0, 1000.0, [0, 1]),
+              ('saftvrmie2', {'kind': 'saftvrmie', 'src': src(('saftvrmie/lafitte2013.json', ['methane', 'ethane']))}, 200.0, 1000.0, [0, 1])]
+    for name, spec, T, V, which in B:
+        for a in which:
+            idx = [0, 0, 1] if a == 0 else [0, 1, 1]
+            m2 = dict(spec); m2['idx'] = idx
+            jobs.append(('split/%s/%d' % (name, a), {'job': 'split', 'model': spec, 'model2': m2, 'x': state(3, T, V, seed)}, {'scale': False, 'budget_s': 600}))
+    return jobs
+
+
+def jobs_C08(tier, seed):
+    jobs = []
+    x2 = lambda T, V: state(2, T, V, seed)
+    pc = {'kind': 'pcsaft', 'src': src((P + 'gross2001.json', ['propane', 'butane']))}
+    # pair 1: functional bulk path vs equation of state
+    for v in ('WhiteBear', 'KierlikRosinberg', 'AntiSymWhiteBear'):
+        f = {'kind': 'pcsaft_fun', 'fmt': v, 'src': pc['src']}
+        jobs.append(('fun_vs_eos/pcsaft/' + v, {'job': 'pair', 'model': pc, 'model2': f, 'x': x2(300.0, 1000.0),
+                                                 'groups': [['Hard_Sphere~FMT', [0], [0]], ['Hard_Chain~chain+ideal_chain', [1], [1, 3]], ['Dispersion~Attractive', [2], [2]]]},
+                     {'scale': False, 'eps0': True, 'budget_s': 900}))
+        jobs.append(('fun_vs_eos/fmt/' + v, {'job': 'pair', 'model': {'kind': 'bmcsl', 'syn': [[3.4], [3.9]]}, 'model2': {'kind': 'fmt_fun', 'fmt': v, 'syn': [[3.4], [3.9]]},
+                                              'x': x2(300.0, 1000.0), 'groups': [['BMCSL~FMT', [0], [0]]]}, {'scale': False, 'eps0': True, 'budget_s': 900}))
+    pe = {'kind': 'pets', 'syn': [[3.4, 120.0, 39.9], [3.6, 165.0, 83.8]], 'bin': {'k_ij': 0.01}}
+    jobs.append(('fun_vs_eos/pets', {'job': 'pair', 'model': pe, 'model2': dict(pe, kind='pets_fun'), 'x': x2(150.0, 1000.0),
+                                     'groups': [['Hard_Sphere~FMT', [0], [0]], ['Dispersion~Attractive', [1], [1]]]}, {'scale': False, 'eps0': True, 'budget_s': 900}))
+    gc = {'kind': 'gcpcsaft', 'src': src((P + 'gc_substances.json', ['propane', 'butane'])), 'segments': P + 'sauer2014_hetero.json'}
+    jobs.append(('fun_vs_eos/gcpcsaft', {'job': 'pair', 'model': gc, 'model2': dict(gc, kind='gcpcsaft_fun'), 'x': x2(300.0, 1000.0),
+                                         'groups': [['Hard_Sphere~FMT', [0], [0]], ['Dispersion~Attractive', [2], [2]]]}, {'scale': False, 'eps0': True, 'budget_s': 900}))
+    if tier == 'thorough':
+        vq = {'kind': 'saftvrqmie', 'src': src(('saftvrqmie/hammer2023.json', ['hydrogen', 'neon']))}
+        jobs.append(('fun_vs_eos/saftvrqmie', {'job': 'pair', 'model': vq, 'model2': dict(vq, kind='saftvrqmie_fun'), 'x': x2(50.0, 1000.0)}, {'scale': False, 'eps0': True, 'budget_s': 1800}))
+    # pair 2: generic containers vs bare model
+    bare = [(n, s, T, V) for n, s, c, T, V in systems(tier, seed) if n in (('pr', 'pcsaft', 'pcsaft_assoc', 'epcsaft', 'gcpcsaft', 'pets', 'uv_wca', 'saftvrmie', 'pcsaft_fun_WhiteBear', 'pets_fun', 'fmt_fun', 'gcpcsaft_fun')
+                                                                       if tier == 'quick' else [q[0] for q in systems(tier, seed)])]
+    for n, s, T, V in bare:
+        for w in ('enum', 'eos'):
+            jobs.append(('wrap_%s/%s' % (w, n), {'job': 'pair', 'match': 'contrib', 'model': s, 'model2': dict(s, wrap=w), 'x': x2(T, V)}, {'scale': False, 'budget_s': 600}))
+    # pair 3: ePC-SAFT without ions vs PC-SAFT
+    for n, s in (('hc', pc), ('assoc', {'kind': 'pcsaft', 'src': src((P + 'gross2001.json', ['propane']), (P + 'gross2002.json', ['methanol']))})):
+        jobs.append(('epcsaft_vs_pcsaft/' + n, {'job': 'pair', 'match': 'contrib', 'model': s, 'model2': dict(s, kind='epcsaft'), 'x': x2(300.0, 1000.0)}, {'scale': False, 'budget_s': 600}))
+    # pair 4: SAFT-VRQ Mie, Feynman-Hibbs order 0, vs SAFT-VR Mie for monomers
+    mono = [[1.0, 3.7, 150.0, 12.0, 6.0, 16.0], [1.0, 3.4, 120.0, 14.0, 6.0, 40.0]]
+    jobs.append(('vrq_fh0_vs_vrmie', {'job': 'pair', 'model': {'kind': 'saftvrmie', 'syn': mono}, 'model2': {'kind': 'saftvrqmie', 'syn': mono, 'fh': 0}, 'x': x2(150.0, 1000.0)},
+                 {'scale': False, 'merge_ulps': 8, 'budget_s': 900}))
+    # pair 5: homosegmented group contribution vs combined record
+    hg = {'src': src((P + 'gc_substances.json', ['propane', 'butane'])), 'segments': P + 'sauer2014_homo.json'}
+    jobs.append(('homogc_vs_record', {'job': 'pair', 'match': 'contrib', 'model': dict(hg, kind='pcsaft_homogc'), 'model2': dict(hg, kind='pcsaft_homogc_records'), 'x': x2(300.0, 1000.0)},
+                 {'scale': False, 'merge_ulps': 8, 'budget_s': 600}))
+    # pair 6: Peng-Robinson vs textbook closed form
+    prs = {'kind': 'pr', 'syn': [[369.8, 41.9e5, 0.15, 44.0], [425.2, 37.9e5, 0.2, 58.0]], 'bin': 0.02}
+    jobs.append(('pr_vs_textbook', {'job': 'pr_textbook', 'model': prs, 'x': x2(300.0, 1000.0)}, {'scale': False, 'merge_ulps': 64, 'budget_s': 600}))
+    return jobs
+
+
+def jobs_C13(tier, seed):
+    jobs = []
+    for name, spec, n, T, V in systems(tier, seed):
+        if 'fun' in name and tier == 'quick':
+            continue
+        if name == 'epcsaft':
+            continue  # electrolyte model family: excluded by the property
+        xf = [0.4, 0.6]
+        for order in ((2,) if tier == 'quick' else (2, 3)):
+            # x[1] is the density here; witness on the finite-density path, fixed to 0 for the limit
+            x = [T, 1e-4, 1.0, 1.0, 1.0]
+            jobs.append(('virial%d/%s' % (order, name), {'job': 'virial', 'model': spec, 'molefracs': xf, 'order': order, 'x': x},
+                         {'scale': False, 'fixed': {'1': 0.0}, 'budget_s': 600}))
+    return jobs
+
+
+def jobs_C10(tier, seed):
+    jobs = []
+    I = 'ideal_gas/'
+    jb = {'kind': 'joback', 'syn': [[-5.2, 0.35, -2.1e-4, 6.3e-8, -1.1e-11], [12.0, 0.2, 1.0e-4, -2.0e-8, 3.0e-12]]}
+    d100 = {'kind': 'dippr', 'src': src((I + 'poling2000.json', ['ethanol', 'diethyl ether']))}
+    for n, s in (('joback', jb), ('dippr100', d100)):
+        jobs.append(('ideal_mix/' + n, {'job': 'ideal_mix', 'model': s, 'x': state(2, 350.0, 1000.0, seed)}, {'budget_s': 300}))
+    if tier == 'thorough':
+        d107 = {'kind': 'dippr', 'syn': [[107, 33363.0, 26790.0, 2610.5, 8896.0, 1169.0], [107, 29000.0, 21000.0, 1500.0, 9000.0, 700.0]]}
+        d127 = {'kind': 'dippr', 'syn': [[127, 33258.0, 36199.0, 1205.0, 15176.0, 3277.0, 7002.0, 9876.0], [127, 30000.0, 30000.0, 1000.0, 12000.0, 3000.0, 5000.0, 8000.0]]}
+        for n, s in (('dippr107', d107), ('dippr127', d127)):
+            jobs.append(('ideal_mix/' + n, {'job': 'ideal_mix', 'model': s, 'x': state(2, 350.0, 1000.0, seed)}, {'budget_s': 600}))
+    return jobs
+
+
+def jobs_C01(tier, seed):
+    jobs = []
+    for name, spec, n, T, V in systems(tier, seed):
+        x = state(n, T, V, seed)
+        x2 = state(n, T * 1.13, V * 0.91, seed + 17)
+        jobs.append(('twowit/' + name, {'job': 'twowit', 'model': spec, 'x': x, 'x2': x2}, {'scale': False, 'budget_s': 300}))
+    # C01-c: homogeneity degrees of the derivative DAGs (the derivative path equals the value path's degree)
+    first = ['T', 'V', 'N0']
+    second = [['V', 'V'], ['T', 'V'], ['N0', 'N1'], ['T', 'T'], ['N0', 'V'], ['T', 'N1']]
+    names = ('pr', 'pcsaft', 'pcsaft_assoc', 'pets') if tier == 'quick' else [s[0] for s in systems(tier, seed) if 'saftvrq' not in s[0]]
+    for name, spec, n, T, V in systems(tier, seed):
+        if name not in names:
+            continue
+        x = state(n, T, V, seed)
+        for sd in first:
+            jobs.append(('ext_d1/%s/%s' % (name, sd), {'job': 'ext', 'dual': 'first', 'seed': [sd], 'model': spec, 'x': x}, {'budget_s': 600}))
+        for sd in (second[:3] if tier == 'quick' else second):
+            jobs.append(('ext_d2/%s/%s' % (name, ''.join(sd)), {'job': 'ext', 'dual': 'second', 'seed': sd, 'model': spec, 'x': x}, {'budget_s': 900}))
+        if tier == 'thorough':
+            for sd in ('V', 'T'):
+                jobs.append(('ext_d3/%s/%s' % (name, sd), {'job': 'ext', 'dual': 'third', 'seed': [sd], 'model': spec, 'x': x}, {'budget_s': 1200}))
+    return jobs
